@@ -1012,6 +1012,7 @@ func extMutexLock(fr *frame, args []value) value {
 		px.abort("deadlock", "mutex re-locked")
 	}
 	*s = int32(1)
+	fr.i.px.locksHeld++
 	return nil
 }
 
@@ -1021,6 +1022,7 @@ func extMutexTryLock(fr *frame, args []value) value {
 		return false
 	}
 	*s = int32(1)
+	fr.i.px.locksHeld++
 	return true
 }
 
@@ -1030,6 +1032,9 @@ func extMutexUnlock(fr *frame, args []value) value {
 		panic(targetPanic{runtimeError("fatal error: sync: unlock of unlocked mutex")})
 	}
 	*s = int32(0)
+	if fr.i.px.locksHeld > 0 {
+		fr.i.px.locksHeld--
+	}
 	return nil
 }
 
@@ -1190,6 +1195,10 @@ func extPCGUint64(fr *frame, args []value) value {
 	px.nDraw++
 	px.drawLog = append(px.drawLog, drawRec{recv: recv, sym: t})
 	px.workUnits++
+	if fr.i.shared != nil {
+		// advancing a generator is a write to its state
+		fr.i.noteSharedWrite(fr, recv)
+	}
 	return symInt{t, types.Uint64}
 }
 
